@@ -1168,10 +1168,32 @@ def _gauss_jordan(A, B):
     return X
 
 
+def _adj_inv(a):
+    """inverse of a 1x1 / 2x2 / 3x3 matrix as adjugate / determinant (one inverse atom instead of pivoting)"""
+    n = a.shape[0]
+    if n == 1:
+        out = np.empty((1, 1), dtype=object)
+        out[0, 0] = ring.inv(a[0, 0])
+        return out
+    d = linalg_det(a)
+    if not P(d).t:
+        raise Undecided("singular matrix in exact inverse")
+    idet = ring.inv(d)
+    out = np.empty((n, n), dtype=object)
+    for i in range(n):
+        for j in range(n):
+            minor = np.delete(np.delete(a, j, axis=0), i, axis=1)
+            c = linalg_det(minor) if n > 2 else minor[0, 0]
+            out[i, j] = (c if (i + j) % 2 == 0 else -c) * idet
+    return out
+
+
 def linalg_inv(a):
     a = to_obj(asarray(a))
     if a.ndim == 2:
         n = a.shape[0]
+        if n <= 3 and not all(P(v).is_const() for v in a.reshape(-1)):
+            return _adj_inv(a)
         return _gauss_jordan(a, eye(n))
     out = np.empty(a.shape, dtype=object)
     for idx in np.ndindex(a.shape[:-2]):
@@ -1322,6 +1344,12 @@ def native_getattr(it, obj, name):
             return _sort
         if name == "fill":
             return lambda v: array_setitem(obj, Ellipsis, v)
+        if name == "real_to_dual":
+            from . import admodels
+
+            return lambda b: admodels.real_to_dual(obj, b)
+        if name == "x":
+            return obj
         if name in _ARR_SAFE:
             m = getattr(obj, name)
             if name == "reshape":
@@ -1351,6 +1379,16 @@ def native_getattr(it, obj, name):
             return obj
         if name in ("sum", "mean", "item", "squeeze", "ravel"):
             return lambda *a, **k: obj
+        if name == "x":
+            r = np.empty((), dtype=object)
+            r[()] = obj
+            return r
+        if name == "real_to_dual":
+            from . import admodels
+
+            return lambda b: admodels.real_to_dual(obj, b)
+        if name == "ntrax":
+            return 0
         raise InterpRaise(AttributeError("scalar has no attribute %r" % name), it.where())
     if isinstance(obj, Fraction):
         if name in ("shape",):
